@@ -988,6 +988,7 @@ class Analyzer:
             self._loop_n += 1
             lid = self._loop_n
             self.res.loops[lid] = st
+            self.event("iter", st, s2, iterable=("elem", it, lid))        # the loop itself, whether or not its target is used
             tnames = {n.id for n in ast.walk(st.target) if isinstance(n, ast.Name)}
             head, names = self._loop_head(s2, st.body, lid, tnames)
             body_in = self.assign(st.target, ("elem", it, lid), head, st)
@@ -1276,6 +1277,8 @@ class Analyzer:
         if isinstance(tgt, ast.Name):
             s2 = s.copy()
             s2.env[self._k(tgt.id)] = v
+            if self.fi.backend == "pyx" and not self._frames:
+                self.event("assign", st, s2, name=tgt.id, value=v)       # C-typed locals: the conversion at the store is judged (PX9)
             if tgt.id in self._global_names:
                 self.event("store_global", st, s2, name=tgt.id, value=v)
             return s2
